@@ -329,12 +329,15 @@ Section Unfold.
     | FIfC s a b t1 t2 _ =>
         wc_ifc cur s (cmp' a CI64) (match b with Some b' => Some (cmp' b' CI64) | None => None end) (wc' t1) (wc' t2) cont
     | FPrint nl a next _ => wc_print nl (cmp' a CI64) (wc' next) cont
-    | FLet v vty bound body _ => wc_let codata v vty (cmp' bound) (wc' bound) (wc' body) cont
+    | FLet v vty bound body lty =>
+        guard_capture lg [v] (wc_let codata v vty (cmp' bound) (wc' bound) (wc' body)) lty cont
     | FCall f args ret => wc_call f (subst_with (fun y => cmp' y) args) ret cont
     | FCtor x args ty => wc_ctor x (subst_with (fun y => cmp' y) args) ty cont
     | FDtor scrut x _ args _ => wc_dtor (wc' scrut) (fterm_type scrut) x (subst_with (fun y => cmp' y) args) cont
-    | FCase scrut _ cls _ =>
-        wc_case cur (wc' scrut) (fterm_type scrut) (List.length cls) (fun cont' => clauses_with (fun b => wc' b) cont' cls) cont
+    | FCase scrut _ cls cty' =>
+        guard_capture lg (flat_map (fun c => match c with FClause _ _ _ ctx _ => fvars ctx end) cls)
+          (wc_case cur (wc' scrut) (fterm_type scrut) (List.length cls) (fun cont' => clauses_with (fun b => wc' b) cont' cls))
+          cty' cont
     | FNew cls ty => wc_new (coclauses_with (fun b => wc' b) cls) ty cont
     | FLabel l t' ty => wc_label l (wc' t') ty cont
     | FGoto l t' ty => wc_goto lg l (wc' t') ty (fterm_type t')
@@ -353,14 +356,17 @@ Section Unfold.
         default_compile
           (wc_ifc cur s (cmp' a CI64) (match b with Some b' => Some (cmp' b' CI64) | None => None end) (wc' t1) (wc' t2)) ty
     | FPrint nl a next _ => default_compile (wc_print nl (cmp' a CI64) (wc' next)) ty
-    | FLet v vty bound body _ => default_compile (wc_let codata v vty (cmp' bound) (wc' bound) (wc' body)) ty
+    | FLet v vty bound body lty =>
+        default_compile (guard_capture lg [v] (wc_let codata v vty (cmp' bound) (wc' bound) (wc' body)) lty) ty
     | FCall f args ret => default_compile (wc_call f (subst_with (fun y => cmp' y) args) ret) ty
     | FCtor x args cty' => cmp_ctor x (subst_with (fun y => cmp' y) args) cty'
     | FDtor scrut x _ args _ =>
         default_compile (wc_dtor (wc' scrut) (fterm_type scrut) x (subst_with (fun y => cmp' y) args)) ty
-    | FCase scrut _ cls _ =>
+    | FCase scrut _ cls cty' =>
         default_compile
-          (wc_case cur (wc' scrut) (fterm_type scrut) (List.length cls) (fun cont' => clauses_with (fun b => wc' b) cont' cls)) ty
+          (guard_capture lg (flat_map (fun c => match c with FClause _ _ _ ctx _ => fvars ctx end) cls)
+             (wc_case cur (wc' scrut) (fterm_type scrut) (List.length cls) (fun cont' => clauses_with (fun b => wc' b) cont' cls))
+             cty') ty
     | FNew cls nty => cmp_new (coclauses_with (fun b => wc' b) cls) nty
     | FLabel l t' lty => cmp_label l (wc' t') lty
     | FGoto l t' gty => default_compile (fun _ => wc_goto lg l (wc' t') gty (fterm_type t')) ty
@@ -393,6 +399,10 @@ Proof.
   destruct c as [p x names ctx body]. simpl in Hc. unfold compile_coclause. mg.
 Qed.
 
+Lemma mgrows_guard_capture : forall lg binders w ty cont,
+  (forall c, mgrows (w c)) -> mgrows (guard_capture lg binders w ty cont).
+Proof. intros lg binders w ty cont H. unfold guard_capture. mg. Qed.
+
 (* the invariant for the whole translation: all 15 term forms, both methods *)
 Lemma wc_cmp_grows : forall codata cur lg t,
   (forall cont, mgrows (wc codata cur lg t cont)) /\ (forall ty, mgrows (cmp codata cur lg t ty)).
@@ -417,7 +427,8 @@ Proof.
   - destruct IHt1 as [W1 C1], IHt2 as [W2 C2].
     assert (Hl : forall cont, mgrows (wc_let codata v vty (cmp codata cur lg t1) (wc codata cur lg t1) (wc codata cur lg t2) cont)).
     { intros. unfold wc_let. mg. }
-    split; intros; [rewrite wc_unfold | rewrite cmp_unfold; apply mgrows_default_compile]; apply Hl.
+    split; intros; [rewrite wc_unfold | rewrite cmp_unfold; apply mgrows_default_compile; intros];
+      apply mgrows_guard_capture; apply Hl.
   - assert (Hs : mgrows (subst_with (fun y => cmp codata cur lg y) args)).
     { apply mgrows_subst_with. eapply Forall_impl; [|exact H]. intros a [_ Ca]. exact Ca. }
     assert (Hc : forall cont, mgrows (wc_call f (subst_with (fun y => cmp codata cur lg y) args) ret cont)).
@@ -438,7 +449,8 @@ Proof.
     assert (Hc : forall cont, mgrows (wc_case cur (wc codata cur lg t) (fterm_type t) (List.length cls)
                                         (fun cont' => clauses_with (fun b => wc codata cur lg b) cont' cls) cont)).
     { intros. unfold wc_case. mg2. }
-    split; intros; [rewrite wc_unfold | rewrite cmp_unfold; apply mgrows_default_compile]; apply Hc.
+    split; intros; [rewrite wc_unfold | rewrite cmp_unfold; apply mgrows_default_compile; intros];
+      apply mgrows_guard_capture; apply Hc.
   - assert (Hcl : mgrows (coclauses_with (fun b => wc codata cur lg b) cls)).
     { apply mgrows_coclauses_with. eapply Forall_impl; [|exact H]. intros c [Wc _]. exact Wc. }
     split; intros; [rewrite wc_unfold; unfold wc_new, cmp_new | rewrite cmp_unfold; unfold cmp_new]; mg.
@@ -649,11 +661,20 @@ From SCC Require Import Sem.AxSem Sem.CoreSem Sem.FunSem.
 Definition compiled_or_empty (p : fcprog) : cprog :=
   match compile_prog p with Ok c => c | Err _ => mkcp [] [] [] 0 end.
 
-(* source semantics: prints 12; the translation's Core program: prints 14 *)
+Definition compiled_before_fix_or_empty (p : fcprog) : cprog :=
+  match compile_prog_before_fix p with Ok c => c | Err _ => mkcp [] [] [] 0 end.
+
+(* REGRESSION STATEMENTS about the translation as it was before fix commit <commitcap> of /repo
+   ([compile_prog_before_fix]: the continuation was placed under let / pattern binders of names it
+   mentions).  Source semantics: prints 12; the OLD translation's Core program: prints 14 *)
 Lemma capture_witness_fun : run_fun 200 capture_witness [] = ([(true, 12%Z)], OExit 0%Z).
 Proof. vm_compute. reflexivity. Qed.
+Lemma capture_witness_core_before_fix :
+  run_core 200 (compiled_before_fix_or_empty capture_witness) [] = ([(true, 14%Z)], OExit 0%Z).
+Proof. vm_compute. reflexivity. Qed.
+(* ... and the CURRENT translation of the witness behaves like the source *)
 Lemma capture_witness_core :
-  run_core 200 (compiled_or_empty capture_witness) [] = ([(true, 14%Z)], OExit 0%Z).
+  run_core 200 (compiled_or_empty capture_witness) [] = ([(true, 12%Z)], OExit 0%Z).
 Proof. vm_compute. reflexivity. Qed.
 
 (* the witness is inside the property's precondition, and the syntactic detector fires on it *)
@@ -662,18 +683,23 @@ Lemma capture_witness_guards :
   shadowing_risk_prog capture_witness = true /\ barendregt capture_witness = false.
 Proof. vm_compute. repeat split; reflexivity. Qed.
 
-Theorem fun2core_capture_refuted_lemma :
+Theorem fun2core_capture_before_fix_lemma :
   exists (p : fcprog) (args : list Z) (c : cprog) (n : nat),
     annotated_fcprog p = true /\ effect_sequenced p = true /\
-    compile_prog p = Ok c /\
+    compile_prog_before_fix p = Ok c /\
     defined (run_fun n p args) = true /\
     run_fun n p args <> run_core n c args.
 Proof.
-  exists capture_witness, [], (compiled_or_empty capture_witness), 200%nat.
+  exists capture_witness, [], (compiled_before_fix_or_empty capture_witness), 200%nat.
   split; [vm_compute; reflexivity|]. split; [vm_compute; reflexivity|].
   split; [vm_compute; reflexivity|]. split; [vm_compute; reflexivity|].
-  rewrite capture_witness_fun, capture_witness_core. intros H. discriminate H.
+  rewrite capture_witness_fun, capture_witness_core_before_fix. intros H. discriminate H.
 Qed.
+Lemma capture_witness_fixed_lemma :
+  compile_prog capture_witness = Ok (compiled_or_empty capture_witness) /\
+  run_core 200 (compiled_or_empty capture_witness) [] = run_fun 200 capture_witness [] /\
+  run_fun 200 capture_witness [] = ([(true, 12%Z)], OExit 0%Z).
+Proof. vm_compute. repeat split; reflexivity. Qed.
 
 (* ====================================================================================
    Part 4: the witness of the REPAIRED defect class (mistyped goto target, fixed in /repo by commit
@@ -685,8 +711,6 @@ Definition cdef_closed (d : cdef) : bool :=
   forallb (fun b => existsb (cident_eqb (cbvar b)) (cvars (cdctx d))) (tfv_stmt (cdbody d) []).
 Definition cprog_closed (c : cprog) : bool := forallb cdef_closed (cpdefs c).
 
-Definition compiled_before_fix_or_empty (p : fcprog) : cprog :=
-  match compile_prog_before_fix p with Ok c => c | Err _ => mkcp [] [] [] 0 end.
 
 Lemma goto_witness_fun : run_fun 200 goto_witness [] = ([(true, 4%Z)], OExit 0%Z).
 Proof. vm_compute. reflexivity. Qed.
